@@ -70,7 +70,7 @@ fn is_valid_domain(mut s: &str) -> bool {
             return false;
         }
 
-        if port.parse::<u16>().is_err() {
+        if port.parse::<u16>().is_err() || !port.bytes().all(|b| b.is_ascii_digit()) {
             return false;
         }
 
